@@ -109,6 +109,15 @@ def showPacket : Packet → String
   | .payload p => s!"pay {toHex p}"
   | .disconnect => "disc"
 
+def kindName : Packet → String
+  | .connectionRequest .. => "req"
+  | .connectionDenied => "denied"
+  | .challenge .. => "chal"
+  | .response .. => "resp"
+  | .keepAlive .. => "ka"
+  | .payload _ => "pay"
+  | .disconnect => "disc"
+
 def showRP : Option RP → String
   | none => "-"
   | some r => r.dump
@@ -194,6 +203,21 @@ def stepOp (w : NWorld) (toks : List String) : Option (NWorld × String) :=
       | (.err e, rp') => some (w, s!"err:{e.name} rp={showRP rp'}")
       | (.panic _, _) => some (die w)
     | _, _, _, _ => bad
+  | ["nc-stream", proto, key, dgs] =>
+    -- a list of datagrams decoded one after the other through ONE fresh replay window
+    match pU64 proto, pHexN 32 key, (dgs.splitOn ",").mapM fromHex with
+    | some proto, some key, some bufs =>
+      let rec go (rp : RP) (acc : List String) : List Bytes → Option (RP × List String)
+        | [] => some (rp, acc.reverse)
+        | b :: rest =>
+          match Packet.decode aead b proto (some key) (some rp) with
+          | (.ok (s, p), rp') => go (rp'.getD rp) (s!"ok:{s}:{kindName p}" :: acc) rest
+          | (.err e, rp') => go (rp'.getD rp) (s!"err:{e.name}" :: acc) rest
+          | (.panic _, _) => none
+      match go RP.new [] bufs with
+      | some (rp, outs) => some (w, s!"{",".intercalate outs} rp={rp.dump}")
+      | none => some (die w)
+    | _, _, _ => bad
   -- tokens --------------------------------------------------------------------------------------
   | ["tok-write", id, ver, proto, create, expire, xnonce, priv, timeout, addrs, c2s, s2c] =>
     match pU64 id, pHexN 13 ver, pU64 proto, pU64 create, pU64 expire, pHexN 24 xnonce, pHexN 1024 priv,
